@@ -27,6 +27,10 @@ type WOp struct {
 	Exp  bool   `json:"exp,omitempty"`  // write with expiry +1h (only where the clock is controlled)
 	Past bool   `json:"past,omitempty"` // write a record whose expiry is already in the past: the key is gone for every waiter (in-memory only)
 	Min  int    `json:"min,omitempty"`  // advance
+	// Journal (put, casok): the value written is what the storage held for the key just before (the raw stored bytes where the
+	// environment can read them, else the previous version string): a writer that keeps the previous record as undo information
+	Journal bool `json:"journal,omitempty"`
+	Quiet   int  `json:"quiet,omitempty"` // quiet: nothing happens for that many milliseconds (real time where the clock is real)
 }
 
 // WCase is a waiter script.
@@ -43,9 +47,11 @@ type WEnv struct {
 	Advance    func(time.Duration)                   // nil: no clock control (advance/Exp are skipped)
 	Now        func() time.Time
 	Table      func() (int, int, bool)
-	Gates      bool   // gated starts are possible (deterministic environment only)
-	Fault      func() // makes the storage behind the backend fail for a moment (nil: not available)
-	PastWrites bool   // records may be written with an expiry that is already in the past (backends without TTL clamping)
+	Gates      bool                    // gated starts are possible (deterministic environment only)
+	Fault      func()                  // makes the storage behind the backend fail for a moment (nil: not available)
+	PastWrites bool                    // records may be written with an expiry that is already in the past (backends without TTL clamping)
+	Raw        func(key string) []byte // the bytes the storage behind the backend holds for the key (nil: not readable)
+	Quiet      func(time.Duration)     // lets time pass with nothing happening (nil: time.Sleep)
 }
 
 type wkey struct {
@@ -188,6 +194,18 @@ func runWait(c WCase, env *WEnv, info *WInfo, livep *[]*wtr) *vstat.Violation {
 		}
 		return r.Version, nil
 	}
+	value := func(op WOp, k int, plain string) []byte {
+		if !op.Journal {
+			return []byte(plain)
+		}
+		info.class("journal_value_holds_previous_record")
+		if env.Raw != nil {
+			if b := env.Raw(name(k)); len(b) > 0 {
+				return b
+			}
+		}
+		return []byte("undo:" + keys[k].ver)
+	}
 	for i, op := range c.Ops {
 		where := fmt.Sprintf("step #%d %s", i, describeW(op))
 		k := op.Key & 1
@@ -269,7 +287,7 @@ func runWait(c WCase, env *WEnv, info *WInfo, livep *[]*wtr) *vstat.Violation {
 			}
 		case "put":
 			exp := (op.Exp || pastNow) && env.Advance != nil
-			r, err := env.St.Put(ctx, kvs.Record{Key: name(k), Value: []byte("p"), ExpiresAt: expiry(exp)})
+			r, err := env.St.Put(ctx, kvs.Record{Key: name(k), Value: value(op, k, "p"), ExpiresAt: expiry(exp)})
 			if err != nil {
 				return vstat.V(env.Name+":put-error", "%s: Put failed: %s", where, errName(err))
 			}
@@ -308,7 +326,7 @@ func runWait(c WCase, env *WEnv, info *WInfo, livep *[]*wtr) *vstat.Violation {
 				arg = garbageVer
 			}
 			exp := (op.Exp || (pastNow && op.K == "casok")) && env.Advance != nil
-			r, err := env.St.CasByVersion(ctx, kvs.Record{Key: name(k), Value: []byte("c"), Version: arg, ExpiresAt: expiry(exp)})
+			r, err := env.St.CasByVersion(ctx, kvs.Record{Key: name(k), Value: value(op, k, "c"), Version: arg, ExpiresAt: expiry(exp)})
 			if op.K == "casbad" {
 				if !isClass(err, gerrors.ErrConflict) {
 					return vstat.V(env.Name+":cas-conflict", "%s: CasByVersion with a wrong version returned %s", where, errName(err))
@@ -339,6 +357,18 @@ func runWait(c WCase, env *WEnv, info *WInfo, livep *[]*wtr) *vstat.Violation {
 				return vstat.V(env.Name+":create-on-absent", "%s: Create on an absent key failed: %s", where, errName(err))
 			}
 			wrote(k, ver, exp)
+		case "quiet":
+			d := time.Duration(op.Quiet) * time.Millisecond
+			if env.Quiet != nil {
+				env.Quiet(d)
+			} else {
+				time.Sleep(d) // the clock of the storage moves along
+				elapsed += d
+			}
+			if len(*livep) > 0 {
+				info.class("quiet_period_with_parked_waiters")
+			}
+			cause = "nothing"
 		case "advance":
 			if env.Advance == nil {
 				continue
@@ -464,8 +494,13 @@ func describeW(o WOp) string {
 		return "storage-fault"
 	case "advance":
 		return fmt.Sprintf("advance(%dmin)", o.Min)
+	case "quiet":
+		return fmt.Sprintf("quiet(%dms)", o.Quiet)
 	case "putmany":
 		return fmt.Sprintf("putmany(key%d,two=%v,exp=%v)", o.Key&1, o.Two, o.Exp)
+	}
+	if o.Journal {
+		return fmt.Sprintf("%s(key%d,exp=%v,value=previous stored record)", o.K, o.Key&1, o.Exp)
 	}
 	return fmt.Sprintf("%s(key%d,exp=%v)", o.K, o.Key&1, o.Exp)
 }
